@@ -177,13 +177,13 @@ func TestVerifC12Decision(t *testing.T) {
 			if closed {
 				if w.forceClose != 1 || tx == nil ||
 					next != StateCommitmentBroadcasted ||
-					!w.broadcasted || len(w.published) != 1 {
+					!w.broadcasted || len(w.commitPub) != 1 {
 
 					rt.Fatalf("height %d: inconsistent "+
 						"broadcast: force=%d tx=%v state=%v "+
 						"marked=%v published=%d", h,
 						w.forceClose, tx != nil, next,
-						w.broadcasted, len(w.published))
+						w.broadcasted, len(w.commitPub))
 				}
 				labels = append(labels, "closed")
 				closedAt = k
@@ -191,11 +191,11 @@ func TestVerifC12Decision(t *testing.T) {
 				break
 			}
 			if next != StateDefault || len(w.msgs) != 0 ||
-				len(w.published) != 0 || w.broadcasted {
+				len(w.commitPub) != 0 || w.broadcasted {
 
 				rt.Fatalf("height %d: stayed off chain but "+
 					"state=%v msgs=%v published=%v", h, next,
-					w.msgs, w.published)
+					w.msgs, w.commitPub)
 			}
 		}
 
